@@ -14,6 +14,10 @@ TRUSTED_BASE = [
     "estimator objects ('est' histories): the PSD an estimator computes is taken from a FRESH object of the same class / "
     "data / NFFT / sampling (the property quantifies over stored PSDs, not over how they are estimated); the conversions "
     "of that PSD are specified by spec_S / spec_rep / spec_freqs of this file and by the model in double precision",
+    "walks: the PSD an estimator stores after an NFFT / sampling / data change (explicit call or lazy recomputation) is taken "
+    "from a FRESH object of the same class in the configuration then in force; the model sees the operations after the last "
+    "stored PSD only (exact rationals when that PSD was set by hand, doubles when it was computed); the conversions of the "
+    "earlier segments are specified by spec_S / spec_rep / spec_freqs of this file",
     "arma2psd(sides='centerdc'): the model's two-sided arma2psd (double precision, rtol 1e-9 as in C08) re-indexed by the "
     "centre-DC index rule of this file; the oracle evaluates rho/T |B(f)|^2/|A(f)|^2 directly at the centre-DC axis",
 ]
@@ -31,6 +35,11 @@ ASSUMPTIONS = ["tools.twosided_2_onesided is specified for symmetric two-sided i
                "only a following get_converted_psd is checked (against the PSD of a fresh object), not the psd attribute",
                "only the three names of the statement are passed as `sides` argument: get_converted_psd('default') / "
                "('bogus') return the two-sided vector silently and frequencies('default') returns None (not asserted)",
+               "walks: on a plain Spectrum an NFFT or sampling change is always followed by `psd = vector` before the next "
+               "conversion (the class cannot recompute; converting the out-of-date vector is not a conversion of a stored PSD), "
+               "the vector set by hand on real data has the one-sided length of the NFFT in force (the psd setter does not keep "
+               "NFFT in step), estimator NFFTs are never below the record length, an estimator's first conversion before anything "
+               "was computed is a get (see above), and each stored PSD sees at most 4 conversions (plus a rejected one)",
                "'total power' of the statement is the sum of the PSD values; Spectrum.power() is the library's own quantity "
                "(sum * len(psd) without scale_by_freq, so it differs between one- and two-sided forms) and is not asserted",
                "arma2psd accepts sides in {'default', 'centerdc'} only (anything else raises AssertionError): only these two "
@@ -45,11 +54,24 @@ RULE = ("Spectrum objects with a stored PSD: real/complex x NFFT 1..33 (quick: 1
         "computation / get b} (a seed-dependent 1/6 of them, 1/12 for the two other classes, in quick; 1/2 resp. 1/8 per "
         "round in thorough); tools helpers and cshift on random vectors of every length (arrays, lists, tuples, integers); "
         "arma2psd(sides='centerdc') for NFFT 4..101 (..256 in thorough) x real/complex/absent A, B x norm; "
+        "walks (330 per quick run, 789 per thorough round): ONE object (plain Spectrum real/complex NFFT 1..24 with the PSD "
+        "set by hand; Periodogram, pburg, pcorrelogram, pmusic, MultiTapering plus two seed-dependent other classes in quick, "
+        "all fourteen in thorough, real/complex data N 16|17, NFFT N..44) taken through 2..4 segments of [NFFT change (half of "
+        "them to the parity neighbour with the same one-sided length 2m <-> 2m+1, else double / odd -> odd / neighbour with "
+        "another one-sided length / any; for complex data also implied by the length of the vector handed to the psd setter) "
+        "and / or sampling change or data change] + [new stored PSD: psd = vector by hand, explicit call, or lazily by the "
+        "next conversion] + [1..4 conversions; on real data half of the segments fold back to one-sided and half of the "
+        "following segments start by unfolding; complex data: now and then a rejected one-sided target], the object replaced "
+        "by its deep copy / pickle round trip / shallow copy in a quarter of the walks, and in every fourth walk ANOTHER "
+        "short-lived object of the same class folding a PSD at the parity-neighbour NFFT before every conversion; after EVERY "
+        "conversion the exposed vector is checked (length = frequencies(sides) of the object and of the specification for the "
+        "CURRENT NFFT, values, total power, the reported axis for the current NFFT and sampling), the final state as in the "
+        "other histories, and the operations after the last stored PSD against the model; "
         "non-trivial = NFFT >= 3 and at least one real conversion in the history")
 
 # "est" cases carry the data record as `x`: amplitude and strided variants are derived by the runner; the degenerate
 # variants (dominant DC / Nyquist tone, zero ends) say nothing about conversions and may leave an estimator's domain
-NO_DEGEN = {"est"}
+NO_DEGEN = {"est", "walk"}
 
 SIDES = ["onesided", "twosided", "centerdc"]
 
@@ -410,6 +432,271 @@ def oracle_est(p):
     return out
 
 
+# ---- one object, several layouts: conversions interleaved with NFFT / sampling / data changes and newly stored PSDs ----
+#
+# The histories above run at ONE NFFT per object (the "est" kind changes it once, before any fold).  A "walk" takes one object
+# (a plain Spectrum whose PSD is set by hand, or an estimator) through several SEGMENTS: [changes that invalidate the stored
+# PSD: NFFT (to the neighbour of the other parity that has the same one-sided length 2m <-> 2m+1, to the double, odd -> odd,
+# anything), sampling, data] + [a new PSD is stored: `p.psd = vector` by hand, explicit `p()`, or lazily by the next
+# conversion] + [up to 4 conversions].  After EVERY conversion the exposed vector must be the representation, for the CURRENT
+# NFFT and sampling, of the PSD stored at that moment: nothing the object remembers from an earlier layout may leak.
+
+_INVALIDATE = ("nfft", "fs", "data")
+_STORE = ("psd", "call")
+
+
+def _walk_states(p):
+    """specification side.  For every op: (NFFT, sampling, stored PSD in the default sides or None, was the stored PSD
+    current before the op) -- the configuration in force once the op is done.  A PSD computed by an estimator (explicit
+    call, or lazily by the first conversion after a change) is the PSD of a FRESH object of that configuration."""
+    x = np.asarray(p["x"])
+    cplx = np.iscomplexobj(x)
+    nfft, fs = int(p["nfft"]), float(p.get("fs", 1.0))
+    vals, current = None, False
+    st = []
+    for op, arg in p["ops"]:
+        was = current
+        if op == "nfft":
+            if int(arg) != nfft:           # assigning the value in force is a no-op of the NFFT setter
+                nfft, current = int(arg), False
+        elif op == "fs":
+            if float(arg) != fs:
+                fs, current = float(arg), False
+        elif op == "data":
+            x, current = _x2(x), False
+        elif op == "psd":
+            vals, current = np.asarray(arg, dtype=float), True
+            if cplx:
+                nfft = len(vals)          # the psd setter of a complex object takes NFFT from the vector
+        elif op == "call" or not current:
+            vals, n = _fresh(p["cls"], x, nfft, fs)
+            current = True
+        st.append((nfft, fs, vals, was))
+    return st
+
+
+def _walk_tail(p):
+    start = 0
+    for i, (op, _) in enumerate(p["ops"]):
+        if op in _INVALIDATE or op in _STORE:
+            start = i + 1
+    return start
+
+
+def _shadow(p, s, x):
+    """ANOTHER, short-lived object of the same class and data folds a PSD at the NFFT that is the parity neighbour of the
+    main object's (same one-sided length), or for complex data goes to centre-DC and back, and is dropped: objects share no
+    conversion state (class attributes, module-level memos, tables keyed by id())"""
+    n = int(s.NFFT)
+    nb = n + 1 if n % 2 == 0 else n - 1
+    if nb < max(1, len(x) if p["cls"] != "Spectrum" else 1):
+        nb = n + 2
+    cplx = np.iscomplexobj(x)
+    if p["cls"] == "Spectrum":
+        from spectrum import Spectrum
+        t = Spectrum(x, NFFT=nb, sampling=float(s.sampling), scale_by_freq=False)
+        t.psd = np.arange(1.0, _L(cplx, nb) + 1)
+    else:
+        t = C.make(p["cls"], x, nb, float(s.sampling), False)
+        t.psd
+    t.sides = "centerdc" if cplx else "twosided"
+    t.sides = "default"
+    del t
+
+
+def run_walk(p, notes=None, axes=None):
+    """the exposed vector of each op (None for the ops that are not conversions).  With `axes` (a list) the frequency axis the
+    object reports for the sides of each conversion, right after it, is recorded."""
+    x = np.asarray(p["x"])
+    cplx = np.iscomplexobj(x)
+    fs = float(p.get("fs", 1.0))
+    if p["cls"] == "Spectrum":
+        from spectrum import Spectrum
+        s = Spectrum(x, NFFT=int(p["nfft"]), sampling=fs, scale_by_freq=False)
+    else:
+        s = C.make(p["cls"], x, int(p["nfft"]), fs, False)
+    tail = _walk_tail(p)
+    current = False
+    outs = []
+    for i, (op, arg) in enumerate(p["ops"]):
+        if op == "nfft":
+            if int(arg) != s.NFFT:
+                current = False
+            s.NFFT = int(arg)
+        elif op == "fs":
+            if float(arg) != s.sampling:
+                current = False
+            s.sampling = float(arg)
+        elif op == "data":
+            x = _x2(x)
+            s.data = x
+            current = False
+        elif op == "psd":
+            s.psd = np.array(arg, dtype=float)
+            current = True
+        elif op == "call":
+            s()
+            current = True
+        elif op == "copy":
+            # the object is replaced by its deep copy / pickle round trip / shallow copy (the original is dropped): the copy
+            # holds the same stored PSD in the same sides, or is out of date in the same way
+            import copy
+            import pickle
+            s = copy.deepcopy(s) if arg == "deep" else pickle.loads(pickle.dumps(s)) if arg == "pickle" else copy.copy(s)
+        else:
+            if p.get("shadow"):
+                _shadow(p, s, x)
+            # (a rejected one-sided target on complex data in an earlier segment is tolerated by the plain runner too: the
+            #  model only sees the operations after the last stored PSD)
+            nt = notes if notes is not None else ([] if i < tail and cplx and arg == "onesided" else None)
+            r = _step(s, op, arg, cplx, nt, "%s %s NFFT=%s walk step %d %s:%s" % (
+                p["cls"], "complex" if cplx else "real", s.NFFT, i, op, arg), current=current)
+            current = True
+            outs.append(r)
+            if axes is not None:
+                sd = s._default_sides() if arg == "default" else arg
+                axes.append(None if r is None else np.asarray(s.frequencies(sd), dtype=float))
+            continue
+        outs.append(None)
+        if axes is not None:
+            axes.append(None)
+    return s, outs
+
+
+def impl_walk(p):
+    outs = run_walk(p)[1]
+    return [o for o in outs[_walk_tail(p):] if o is not None]
+
+
+def model_walk(p):
+    # the model converts the PSD stored last (by hand: exact rationals; computed: the fresh object's PSD, doubles) with the
+    # operations that follow it, at the NFFT then in force
+    cplx = np.iscomplexobj(np.asarray(p["x"]))
+    dflt = _default(cplx)
+    t = _walk_tail(p)
+    nfft, fs, vals, _ = _walk_states(p)[-1]
+    hand = [op for op, _ in p["ops"][:t] if op in _STORE or op in _INVALIDATE][-1:] == ["psd"]
+    mode = "Q" if hand else "F"
+    toks = ["%s:%s" % (op, dflt if side == "default" else side) for op, side in p["ops"][t:] if op in ("set", "get")]
+    return (mode, proto.request("convhist", mode, [1 if cplx else 0, nfft, dflt] + toks, [vals]))
+
+
+def _ops_text(ops):
+    return " ".join("%s:%s" % (op, "[%d values]" % len(arg) if op == "psd" else arg) for op, arg in ops)
+
+
+def oracle_walk(p):
+    x = np.asarray(p["x"])
+    cplx = np.iscomplexobj(x)
+    ops = [(op, arg) for op, arg in p["ops"]]
+    who = "%s(%s N=%d NFFT=%s sampling=%s) walk [%s]" % (p["cls"], "complex" if cplx else "real", len(x), p["nfft"],
+                                                        p.get("fs", 1.0), _ops_text(ops))
+    st = _walk_states(p)
+    notes, axes = [], []
+    try:
+        s, outs = run_walk(p, notes, axes)
+    except Exception as e:
+        return ["%s raised %r" % (who, e)]
+    out = list(notes)
+    conv = [i for i, (op, _) in enumerate(ops) if op in ("set", "get")]
+    if not out:
+        # the module's oracle for an exposed vector, applied after every conversion with the NFFT / sampling / stored PSD in
+        # force at that moment
+        cops = [ops[i] for i in conv]
+        out += _check_exposed(cops, [outs[i] for i in conv], cplx,
+                              lambda j: spec_S(cplx, st[conv[j]][0], st[conv[j]][2]), lambda j: st[conv[j]][0],
+                              1.0, who, floor=0.0 if p["cls"] != "Spectrum" else 1.0)
+    if not out:
+        # ... and the axis the object reports for those sides at that moment is the specified axis of the CURRENT NFFT and
+        # sampling (1e-12: the axes are k * sampling / NFFT, at most an ulp or two apart)
+        for i in conv:
+            if outs[i] is None:
+                continue
+            sd = _default(cplx) if ops[i][1] == "default" else ops[i][1]
+            fx = spec_freqs(sd, st[i][0], st[i][1])
+            if axes[i] is None or len(axes[i]) != len(fx) or rel(axes[i], fx) > 1e-12:
+                out.append("frequencies('%s') after step %d (%s:%s) is not the axis of NFFT=%d sampling=%s: %d entries, %d "
+                           "expected (%s)" % (sd, i, ops[i][0], ops[i][1], st[i][0], st[i][1],
+                                              -1 if axes[i] is None else len(axes[i]), len(fx), who))
+                break
+    if not out and st and st[-1][2] is not None:
+        nfft, fs, vals, _ = st[-1]
+        out += _check_axes(s, cplx, nfft, fs, _ops_text(ops))
+        for sd in (SIDES[1:] if cplx else SIDES):
+            r = np.asarray(s.get_converted_psd(sd), dtype=float)
+            e = spec_rep(sd, spec_S(cplx, nfft, vals))
+            if len(r) != len(s.frequencies(sd)) or len(r) != len(e) or rel(r, e) > 1e-12:
+                out.append("final get_converted_psd('%s') has %d values, frequencies('%s') %d, expected %d; rel. difference %s (%s)" % (
+                    sd, len(r), sd, len(s.frequencies(sd)), len(e), "%.3g" % rel(r, e) if len(r) == len(e) else "n/a", who))
+        # returning to the original sides restores the values stored last (exactly when they were computed, as in the "est"
+        # histories; to 1e-12 when set by hand, as in the "hist" histories)
+        s.sides = "default"
+        back = np.asarray(s.psd, dtype=float)
+        hand = [op for op, _ in ops if op in _STORE or op in _INVALIDATE][-1:] == ["psd"]
+        ok = back.shape == vals.shape and (rel(back, vals) <= 1e-12 if hand else np.array_equal(back, vals))
+        if s.sides != _default(cplx) or not ok:
+            out.append("returning to the default sides does not restore the PSD stored last (%s)" % who)
+    return out
+
+
+def _key_walk(p):
+    import zlib
+    txt = "|".join("%s:%s" % (op, _h(np.asarray(arg, dtype=float)) if op == "psd" else arg) for op, arg in p["ops"])
+    return "walk|%s|%s|%s|%s|%s|%08x" % (p["cls"], p["nfft"], p.get("fs"), bool(p.get("shadow")), _h(p["x"]), zlib.crc32(txt.encode()))
+
+
+def _L_same(a, b):
+    return a != b and _L(False, a) == _L(False, b)
+
+
+def _tags_walk(p):
+    cplx = np.iscomplexobj(np.asarray(p["x"]))
+    tags = ["walk:" + ("Spectrum" if p["cls"] == "Spectrum" else "estimator"), "walk:" + ("complex" if cplx else "real"),
+            "walk-class:" + p["cls"]]
+    n = int(p["nfft"])
+    sides, pending = _default(cplx), None
+    folded, seen_fold, kinds = set(), False, set()
+    for op, arg in p["ops"]:
+        if op == "nfft":
+            a = int(arg)
+            kinds.add("neighbour-same-onesided-length" if _L_same(n, a) else "double" if a == 2 * n else
+                      "odd-to-odd" if n % 2 and a % 2 else "same" if a == n else "other")
+            n = a
+            sides = _default(cplx)
+        elif op == "psd":
+            if cplx:
+                if len(arg) != n:
+                    kinds.add("implicit-by-psd-length")
+                n = len(arg)
+            kinds.add("store:by-hand")
+            sides = _default(cplx)
+        elif op == "call":
+            kinds.add("store:call")
+            sides = _default(cplx)
+        elif op in ("fs", "data"):
+            kinds.add("change:" + op)
+            sides = _default(cplx)
+        elif op == "copy":
+            kinds.add("change:object-replaced-by-its-%s-copy" % arg)
+        elif op == "set":
+            sd = _default(cplx) if arg == "default" else arg
+            if not (cplx and sd == "onesided"):
+                if sd == "onesided" and sides != "onesided":
+                    folded.add(n)
+                if sides == "onesided" and sd != "onesided" and any(_L_same(n, f) for f in folded):
+                    seen_fold = True
+                sides = sd
+        elif op == "get":
+            if sides == "onesided" and arg != "onesided" and any(_L_same(n, f) for f in folded):
+                seen_fold = True
+    tags += ["walk-nfft:" + k if not k.startswith(("store", "change")) else "walk-" + k for k in sorted(kinds)]
+    if seen_fold:
+        tags.append("walk:unfold-after-fold-at-the-parity-neighbour")
+    if p.get("shadow"):
+        tags.append("walk:another-object-folds-at-the-parity-neighbour-before-every-conversion")
+    return tags
+
+
 # ---- tools helpers ---------------------------------------------------------------------------------
 
 def _as_input(x, form):
@@ -627,6 +914,8 @@ KINDS = {
                "nontrivial": lambda p: len(p["x"]) >= 3 and int(p["k"]) % len(p["x"]) != 0,
                "tags": lambda p: ["cshift:" + ("float" if isinstance(p["k"], float) else "int") + "-offset",
                                   "cshift:" + (p.get("as") or "array")]},
+    "walk": {"impl": impl_walk, "model": model_walk, "oracle": oracle_walk, "rtol": 1e-13, "atol": 0.0, "key": _key_walk,
+             "tags": _tags_walk},
     "armac": {"impl": impl_armac, "model": model_armac, "post": post_armac, "oracle": oracle_armac, "rtol": 1e-9, "atol": 1e-300,
               "key": lambda p: "armac|%d|%s|%s|%s|%s" % (p["nfft"], p["norm"], _h(p["A"]), _h(p["B"]), p["rho"]),
               "tags": lambda p: ["arma2psd-centerdc:nfft-" + ("odd" if p["nfft"] % 2 else "even"), "arma2psd-centerdc:norm-%s" % p["norm"]]},
@@ -718,6 +1007,8 @@ def gen(rng, nrng, tier):
     for c in _gen_tools(nrng, tier):
         yield c
     for c in _gen_armac(nrng, tier):
+        yield c
+    for c in _gen_walk(nrng, tier):
         yield c
 
 
@@ -830,3 +1121,104 @@ def _gen_armac(nrng, tier):
                 B = None if kb is None else coef(lb, kb == "c")
                 yield ("armac", {"A": A, "B": B, "nfft": nfft, "norm": norm, "rho": float(nrng.uniform(0.1, 3)),
                                  "T": [1.0, 0.5, 8.0][(ni + si) % 3]})
+
+
+# ---- walks: one object through several NFFTs (see the "walk" kind) ----------------------------------------------------
+
+WALK_EST = ["Periodogram", "pburg", "pcorrelogram", "pmusic", "MT-unity"]
+WALK_FS = [1.0, 8000.0, 250.0, 0.1]
+
+
+def _next_nfft(nrng, n, lo, hi):
+    """the next NFFT of a walk: half of the time the neighbour of the other parity that shares the one-sided length
+    (2m <-> 2m+1), else the double, the next / previous value of the same parity (odd -> odd), the neighbour with another
+    one-sided length (2m -> 2m-1, 2m+1 -> 2m+2), or any value in range"""
+    nb = n + 1 if n % 2 == 0 else n - 1
+    r = int(nrng.integers(0, 10))
+    c = nb if r < 5 else (2 * n if r == 5 else n + 2 if r == 6 else n - 2 if r == 7 else (n - 1 if n % 2 == 0 else n + 1) if r == 8
+                          else int(nrng.integers(lo, hi + 1)))
+    if c < lo or c > hi or c == n:
+        c = nb if lo <= nb <= hi else n + 1
+    return c
+
+
+def _walk_ops(nrng, cls, cplx, n0, lo, hi, nseg):
+    plain = cls == "Spectrum"
+    every = [("set", sd) for sd in SIDES + ["default"]] + [("get", sd) for sd in SIDES]
+    conv = [o for o in every if not (cplx and o[1] == "onesided")]
+    away = [sd for sd in SIDES if sd != "onesided"]
+    ops, n, fs = [], n0, 1.0
+    for k in range(nseg):
+        changed = False
+        hand = plain or int(nrng.integers(0, 10)) < 3
+        if k > 0:
+            r = int(nrng.integers(0, 20))
+            if r < 16 or (plain and r >= 18):
+                n2 = _next_nfft(nrng, n, lo, hi)
+                # (the psd setter of a complex object takes NFFT from the vector: half of the time the length alone says it)
+                if not (cplx and hand and int(nrng.integers(0, 2))):
+                    ops.append(("nfft", n2))
+                n = n2
+                changed = True
+            if r in (14, 15, 16, 17):
+                fs = [v for v in WALK_FS if v != fs][int(nrng.integers(0, len(WALK_FS) - 1))]
+                ops.append(("fs", fs))
+                changed = True
+            if r == 18 and not plain:
+                ops.append(("data", None))
+                changed = True
+        # the new PSD: by hand, by an explicit call, or (estimators, after a change / at the start) lazily by the next conversion
+        if hand:
+            ops.append(("psd", _vals(nrng, _L(cplx, n), int(nrng.integers(0, 3)))))
+        elif int(nrng.integers(0, 2)) or not (changed or k == 0):
+            ops.append(("call", None))
+        lazy_first = not hand and k == 0 and ops[-1:] != [("call", None)]
+        # up to four conversions of that PSD; on real data half of the segments fold back to one-sided (and the next segment
+        # starts, as often, by unfolding)
+        if not cplx and int(nrng.integers(0, 2)):
+            seg = [("set", away[int(nrng.integers(0, 2))])]
+            if int(nrng.integers(0, 2)):
+                seg.append(conv[int(nrng.integers(0, len(conv)))])
+            seg.append(("set", ["onesided", "default"][int(nrng.integers(0, 2))]))
+            if int(nrng.integers(0, 2)):
+                seg.append((["set", "get"][int(nrng.integers(0, 2))], away[int(nrng.integers(0, 2))]))
+        else:
+            seg = [conv[int(nrng.integers(0, len(conv)))] for _ in range(int(nrng.integers(1, 5)))]
+            if not cplx and k > 0 and int(nrng.integers(0, 2)):
+                seg[0] = (seg[0][0], away[int(nrng.integers(0, 2))])
+            if cplx and k < nseg - 1 and len(seg) < 4 and int(nrng.integers(0, 6)) == 0:
+                # the rejected one-sided target (after a conversion: the PSD is current), then the history goes on
+                seg.insert(int(nrng.integers(1, len(seg) + 1)), (["set", "get"][int(nrng.integers(0, 2))], "onesided"))
+        if k > 0 and int(nrng.integers(0, 8)) == 0:
+            # the object goes through copy / pickle between two segments, or in the middle of this one
+            seg.insert(int(nrng.integers(0, len(seg))), ("copy", ["deep", "pickle", "shallow"][int(nrng.integers(0, 3))]))
+        if lazy_first and seg[0][0] == "set":
+            # an assignment made before the first computation is not a conversion of a stored PSD (see ASSUMPTIONS)
+            seg[0] = ("get", seg[0][1] if seg[0][1] != "default" else _default(cplx))
+        ops += seg
+    return ops
+
+
+def _gen_walk(nrng, tier):
+    q = tier == "quick"
+    # plain Spectrum objects, the PSD set by hand: NFFT 1..24
+    for cplx, cnt in ((False, 90 if q else 200), (True, 50 if q else 100)):
+        for i in range(cnt):
+            n0 = int(nrng.integers(1, 21))
+            N = max(2, n0 - i % 3)
+            yield ("walk", {"cls": "Spectrum", "x": C.test_data(nrng, N, cplx), "nfft": n0, "fs": 1.0, "shadow": i % 4 == 3,
+                            "ops": _walk_ops(nrng, "Spectrum", cplx, n0, 1, 24, 2 + i % 3)})
+    # estimator objects: NFFT N..44 (never below the record length)
+    others = [c for c in C.CLASSES if c not in WALK_EST]
+    r0 = int(nrng.integers(0, len(others)))
+    if q:
+        classes = [(c, 22, 10) for c in WALK_EST] + [(others[(r0 + 5 * j) % len(others)], 10, 5) for j in range(2)]
+    else:
+        classes = [(c, 40, 20) for c in WALK_EST] + [(c, 14, 7) for c in others]
+    for cls, nr, nc in classes:
+        for cplx, cnt in ((False, nr), (True, nc)):
+            for i in range(cnt):
+                N = 16 + i % 2
+                n0 = int(nrng.integers(N, 34))
+                yield ("walk", {"cls": cls, "x": C.test_data(nrng, N, cplx), "nfft": n0, "fs": 1.0, "shadow": i % 4 == 3,
+                                "ops": _walk_ops(nrng, cls, cplx, n0, N, 44, 2 + i % 3)})
